@@ -71,7 +71,7 @@ Print Assumptions C01_padding_independent.
 
 (* non-vacuity: a document using every construct
      [[p] 1 ] [[!q] k = v ] a = { [[x] y ] b = "x y" } m = { a = 1 x "y" } n = { p q r != s t = u }
-     l { 1 { 3 } { } } h = rgb { 1 } "k" ?= "0123456789abcde" z >= 0
+     l { 1 { 3 } { } } h = rgb { 1 } "k" ?= "0123456789abcde" z >= @[1 +2] @v = 1
    with a comment directly after an operator (gap 6), no left padding, CRLF, ';', and a quoted
    scalar of 15 bytes (closing quote on byte 15 of the first 16-byte block of its haystack) *)
 Open Scope N_scope.
@@ -92,7 +92,8 @@ Definition ex_doc : doc :=
            (VArray (VCons (VScalar Unq [49]) (VCons (VArray (VCons (VScalar Unq [51]) VNil)) (VCons (VArray VNil) VNil)))))
  (FCons (Field Unq [104] (Some Equal) (VHeader [114;103;98] (VArray (VCons (VScalar Unq [49]) VNil))))
  (FCons (Field Quo [107] (Some TextTok.Exists) (VScalar Quo [48;49;50;51;52;53;54;55;56;57;97;98;99;100;101]))
- (FCons (Field Unq [122] (Some GreaterThanEqual) (VScalar Unq [48])) FNil)))))))).
+ (FCons (Field Unq [122] (Some GreaterThanEqual) (VScalar Unq [64;91;49;32;43;50;93]))
+ (FCons (Field Unq [64;118] (Some Equal) (VScalar Unq [49])) FNil))))))))).
 Definition ex_layout (b : bool) : layout :=
   mkLayout b (fun i => if Nat.eqb i 0 then [] else if Nat.eqb i 6 then [35;99;32;123;34;10]
                        else if Nat.eqb i 9 then [13;10;9] else if Nat.eqb i 20 then [32;59;32] else [32]).
@@ -110,5 +111,5 @@ Qed.
 
 Example C01_example_runs :
   parse (render ex_doc (ex_layout true)) = Ok (flatten ex_doc, true) /\
-  length (flatten ex_doc) = 54.
+  length (flatten ex_doc) = 56.
 Proof. split; vm_compute; reflexivity. Qed.
